@@ -5,4 +5,5 @@ cd "$(dirname "$0")"
 mkdir -p build evidence out
 clang++ $(llvm-config-14 --cxxflags) -std=c++17 -fno-rtti -O1 tools/jpfacts/jpfacts.cc -o build/jpfacts \
     /usr/lib/llvm-14/lib/libclang-cpp.so.14 /usr/lib/llvm-14/lib/libLLVM-14.so
+clang++ $(llvm-config-14 --cxxflags) -std=c++17 -fno-rtti -O1 tools/jpir/jpir.cc -o build/jpir /usr/lib/llvm-14/lib/libLLVM-14.so
 echo "setup ok"
